@@ -23,6 +23,9 @@ pub enum GenCase {
     Karate,
     /// per-node marginals in the sparse regime: `samples` seeds from `seed0`, p = p_micro * 1e-6
     Marginals { n: u16, p_micro: u32, directed: bool, seed0: u64, samples: u32 },
+    /// every possible pair occurs in some graph of 16 seeds at p = 0.9 and is missing from some graph
+    /// of 20 seeds at p = 0.1 (sizes beyond 256 nodes, where per-pair statistics are out of reach)
+    Coverage { n: u16, directed: bool, seed0: u64 },
 }
 
 pub struct C16;
@@ -132,6 +135,11 @@ impl Prop for C16 {
                 let per_seed = p_micro as f64 * 1e-6 * (n as f64 - 1.0);
                 let samples = ((500.0 / per_seed) as u32).clamp(2_000, 400_000) * tier.pick(1, 4);
                 v.push(GenCase::Marginals { n, p_micro, directed, seed0: 90_000_000 + n as u64 * 1_000_000 + p_micro as u64, samples });
+            }
+        }
+        for n in [261u16, 300] {
+            for directed in [true, false] {
+                v.push(GenCase::Coverage { n, directed, seed0: 55_000_000 + n as u64 * 1000 });
             }
         }
         let samples = tier.pick(400, 3000);
@@ -249,6 +257,62 @@ impl Prop for C16 {
                     Ok(Ok(_)) => out.fail("fast_gnp_random_graph/invalid_p/accepted", format!("p = {} accepted", p)),
                 }
                 out.class("invalid_p");
+            }
+            GenCase::Coverage { n, directed, seed0 } => {
+                // Every pair is present with probability at least p and at most 2p, independently per
+                // seed: a pair absent from all 16 graphs at p = 0.9 has probability 1e-16, a pair
+                // present in all 20 graphs at p = 0.1 at most 0.2^20 = 1e-14 (times < 1e5 pairs).
+                let nn = *n as usize;
+                for (p, draws, want_present) in [(0.9f64, 16u64, true), (0.1, 20, false)] {
+                    let mut ever = vec![false; nn * nn];
+                    let mut always = vec![true; nn * nn];
+                    for k in 0..draws {
+                        out.api_calls += 1;
+                        let seed = seed0.wrapping_add(k).wrapping_add(if want_present { 0 } else { 500 });
+                        match guard(|| random::fast_gnp_random_graph(*n as i32, p, *directed, Some(seed))) {
+                            Err(pm) => out.fail(format!("fast_gnp_random_graph/panic/{}", panic_class(&pm)), pm),
+                            Ok(Err(e)) => out.fail(format!("fast_gnp_random_graph/valid_p_rejected/{}", kind_of(&e)), format!("p = {}", p)),
+                            Ok(Ok(g)) => {
+                                let mut here = vec![false; nn * nn];
+                                for e in g.get_all_edges() {
+                                    if e.u < 0 || e.v < 0 || e.u as usize >= nn || e.v as usize >= nn {
+                                        out.fail("fast_gnp_random_graph/nodes/foreign_node", format!("edge ({}, {})", e.u, e.v));
+                                        break;
+                                    }
+                                    let (a, b) = (e.u as usize, e.v as usize);
+                                    here[a * nn + b] = true;
+                                    if !*directed {
+                                        here[b * nn + a] = true;
+                                    }
+                                }
+                                for i in 0..nn * nn {
+                                    ever[i] |= here[i];
+                                    always[i] &= here[i];
+                                }
+                            }
+                        }
+                        if !out.failures.is_empty() {
+                            return out;
+                        }
+                    }
+                    for a in 0..nn {
+                        for b in 0..nn {
+                            if a == b {
+                                continue;
+                            }
+                            if want_present && !ever[a * nn + b] {
+                                out.fail(format!("fast_gnp_random_graph/distribution/{}_pair_never_generated", if *directed { "directed" } else { "undirected" }), format!("n={} p={} directed={}: pair ({}, {}) in none of {} graphs (seeds from {})", n, p, directed, a, b, draws, seed0));
+                                return out;
+                            }
+                            if !want_present && always[a * nn + b] {
+                                out.fail(format!("fast_gnp_random_graph/distribution/{}_pair_always_generated", if *directed { "directed" } else { "undirected" }), format!("n={} p={} directed={}: pair ({}, {}) in all {} graphs (seeds from {})", n, p, directed, a, b, draws, seed0 + 500));
+                                return out;
+                            }
+                        }
+                    }
+                }
+                out.class("pair_coverage_beyond_256_nodes");
+                out.nontrivial = true;
             }
             GenCase::Marginals { n, p_micro, directed, seed0, samples } => {
                 // In G(n,p) every possible pair is present with probability p. The published
